@@ -759,7 +759,26 @@ func response(r *rng, id int, extra int) []byte {
 	}
 	// the class of a delivered message must not matter to the transaction machinery
 	typ := r.pick([]int{0x0101, 0x0101, 0x0101, 0x0101, 0x0111, 0x0011, 0x0001, 0x0113})
+	if r.chance(1, 4) {
+		typ = r.intn(0x4000) // nor its method: every 14-bit type, first byte up to 0x3f
+	}
 	return append(header(typ, len(body), t[:]), body...)
+}
+
+// damagedResponse: an intact header carrying the transaction's ID, and an attribute list that does not parse
+// (a length field running past the body, a cut attribute header, a body length that is not there)
+func damagedResponse(r *rng, id int) []byte {
+	t := clientTID(id)
+	switch r.intn(3) {
+	case 0:
+		body := []byte{0x80, 0x22, 0x00, 0x40, 1, 2, 3, 4} // claims 64 value bytes, has 4
+		return append(header(0x0101, len(body), t[:]), body...)
+	case 1:
+		body := append(r.tlv(0x8022, r.bytes(4), 4), 0x80, 0x22) // then half an attribute header
+		return append(header(0x0101, len(body), t[:]), body...)
+	default:
+		return append(header(0x0101, 24, t[:]), r.tlv(0x8022, r.bytes(4), 4)...) // declares more body than was sent
+	}
 }
 
 func (g *clientGen) start(fs *[]string, do bool) {
@@ -798,6 +817,9 @@ func (g *clientGen) history(n int) []string {
 		case 5, 6:
 			if len(g.live) > 0 {
 				id := g.live[r.intn(len(g.live))]
+				if r.chance(1, 5) { // first a datagram for this transaction that does not decode: dropped, no effect
+					fs = append(fs, withBytes([]int{3}, damagedResponse(r, id)))
+				}
 				fs = append(fs, withBytes([]int{3}, response(r, id, r.pick([]int{0, 0, 4, 17}))))
 				if r.chance(1, 4) { // duplicate / late response
 					fs = append(fs, withBytes([]int{3}, response(r, id, 0)))
@@ -871,7 +893,7 @@ func (g *clientGen) history(n int) []string {
 
 func runClientRandom(o *out, r *rng, n int, maxSize int, endClose bool) {
 	for i := 0; i < n; i++ {
-		g := &clientGen{r: r, rto: r.pick([]int{10, 100, 1000}), maxA: r.pick([]int{7, 7, 0}), maxSize: maxSize}
+		g := &clientGen{r: r, rto: r.pick([]int{10, 100, 1000, 1000, 2500000000}), maxA: r.pick([]int{7, 7, 0}), maxSize: maxSize}
 		fs := g.history(r.rangeIn(3, 40))
 		cfg := parseField(fs[0])
 		cfg[2] = r.pick([]int{1, 1, 0})
@@ -952,8 +974,9 @@ func runC11(o *out, thorough bool, r *rng, _ []string) map[string]interface{} {
 	}
 	runClientRandom(o, r, n, 65535, false)
 	moreClientScenarios(o, r)
+	setRTORaceScenario(o, r, 10)
 	// schedule sweep: one transaction, clock stepped to just before / at / just after each deadline
-	for _, rto := range []int{7, 100, 1000} {
+	for _, rto := range []int{7, 100, 1000, 3000000000, 20000000000} { // up to 20 s: the last deadline lies minutes after Start
 		for _, maxA := range []int{7, 0} {
 			for _, size := range []int{20, 2048, 2052, 3024} {
 				fs := []string{fNums(rto, maxA, 1, 0), withBytes([]int{1, 1, 1}, stunMsg(r, 1, size))}
@@ -1005,6 +1028,10 @@ func runC12(o *out, thorough bool, r *rng, _ []string) map[string]interface{} {
 				fs = append(fs, withBytes([]int{3}, r.bytes(r.intn(30))))
 			case 2:
 				fs = append(fs, withBytes([]int{3}, response(r, 7000+r.intn(100), 4)))
+			case 3:
+				fs = append(fs, withBytes([]int{3}, damagedResponse(r, id))) // undecodable, with the ID of a live transaction
+			case 4:
+				fs = append(fs, withBytes([]int{3}, damagedResponse(r, 7000+r.intn(100))))
 			}
 			sz := r.pick([]int{0, 4, 40})
 			if r.chance(1, 20) {
@@ -1043,6 +1070,7 @@ func runC15(o *out, thorough bool, r *rng, _ []string) map[string]interface{} {
 	if thorough {
 		n = 3000
 	}
+	setRTORaceScenario(o, r, 10)
 	for i := 0; i < n; i++ {
 		g := &clientGen{r: r, rto: r.pick([]int{10, 100}), maxA: r.pick([]int{7, 0}), maxSize: 200}
 		fs := g.history(r.rangeIn(0, 12))
@@ -1952,6 +1980,68 @@ func moreClientScenarios(o *out, r *rng) {
 			}
 		}
 		o.count("overlapping-collector-ticks")
+	}
+}
+
+// setRTORaceScenario: SetRTO from one goroutine while collector ticks make the client retransmit on another
+// (and Start on a third): nothing to see without the race detector; under it any unsynchronised access to the
+// client's fields is reported.  Afterwards Close, and every handler has run once.
+func setRTORaceScenario(o *out, r *rng, reps int) {
+	for i := 0; i < reps; i++ {
+		clock := &vclock{now: agentBase}
+		coll := &manualCollector{}
+		conn := &raceConn{rd: make(chan []byte), closedCh: make(chan struct{}), writes: map[[12]byte]int{},
+			held: make(chan struct{}, 1), release: make(chan struct{}), idle: make(chan struct{}, 1)}
+		c, err := stun.NewClient(conn, stun.WithClock(clock), stun.WithCollector(coll), stun.WithRTO(100))
+		if err != nil {
+			continue
+		}
+		var mu sync.Mutex
+		invoked := map[int]int{}
+		start := func(id int) {
+			raw := stunMsg(r, 1, 20)
+			tid := clientTID(id)
+			copy(raw[8:20], tid[:])
+			_ = c.Start(&stun.Message{TransactionID: tid, Raw: raw}, func(stun.Event) { mu.Lock(); invoked[id]++; mu.Unlock() })
+		}
+		for id := 8000; id < 8008; id++ {
+			start(id)
+		}
+		var wg sync.WaitGroup
+		wg.Add(3)
+		go func() {
+			defer wg.Done()
+			for k := 0; k < 200; k++ {
+				c.SetRTO(time.Duration(50 + k%100))
+			}
+		}()
+		go func() {
+			defer wg.Done()
+			for k := 1; k <= 6; k++ {
+				now := agentBase.Add(time.Duration(1000 * k))
+				clock.set(now)
+				coll.f(now)
+			}
+		}()
+		go func() {
+			defer wg.Done()
+			for id := 8100; id < 8108; id++ {
+				start(id)
+			}
+		}()
+		wg.Wait()
+		_ = c.Close()
+		mu.Lock()
+		for id, n := range invoked {
+			if n != 1 {
+				o.failFor("C10", "handler-not-invoked-exactly-once", fmt.Sprintf("x setrto-racing-retransmissions #%d id=%d invoked=%d", i, id, n))
+			}
+		}
+		if len(invoked) != 16 {
+			o.failFor("C10", "handler-not-invoked-exactly-once", fmt.Sprintf("x setrto-racing-retransmissions #%d handlers run for %d of 16 transactions", i, len(invoked)))
+		}
+		mu.Unlock()
+		o.count("setrto-racing-retransmissions")
 	}
 }
 
